@@ -6,7 +6,7 @@ from ..driver import Prop
 class C04(Prop):
     id = 'C04'
     design_ref = 'DESIGN.md section 4 / C04'
-    budgets = {'quick': 60000, 'thorough': 1500000}
+    budgets = {'quick': 60000, 'thorough': 1000000}
     timeout_s = 60.0
 
     def gen(self, rng, index, tier):
